@@ -618,7 +618,7 @@ func TestCheck(t *testing.T) {
 			gcfg := func(c *config.Blockchain) {
 				h.Proto(c)
 				c.RemoveUntraceableBlocks = true
-				c.GarbageCollectionPeriod = 2
+				c.GarbageCollectionPeriod = uint32(2 + (hi+int(ev.Seed()))%4)
 			}
 			grep, err := vchain.OpenReplica(t, vchain.ReplicaCfg{Name: "c03gc", Cfg: gcfg, Backend: backend})
 			if err != nil {
@@ -639,7 +639,18 @@ func TestCheck(t *testing.T) {
 				}
 				_ = grep.Flush()
 				mtb := int(grep.BC.GetMaxTraceableBlocks())
-				for hh := tip; hh > tip-mtb+2 && hh >= 1; hh -= 1 + gr.Intn(3) {
+				// the traceable window is (tip-MaxTraceableBlocks, tip]: its oldest
+				// height is always read, the others by a seeded stride
+				oldest := max(tip-mtb+1, 1)
+				var hs []int
+				for hh := tip; hh > oldest+1; hh -= 1 + gr.Intn(3) {
+					hs = append(hs, hh)
+				}
+				if oldest+1 <= tip {
+					hs = append(hs, oldest+1)
+				}
+				hs = append(hs, oldest)
+				for _, hh := range hs {
 					id := fmt.Sprintf("h%d/pruning/tip%d/height%d", hi, tip, hh)
 					v := checkHeight(run, grep.BC, uint32(hh), h.P.Obs[hh], recs[uint32(hh)], everDeleted, gr, "quick")
 					run.Case(id, true)
